@@ -17,8 +17,9 @@ RULE = (
     "containers, let-shared expressions (used twice), nout destructuring and map_ elements; run under "
     "generated schedules on a file-backed backend, optionally re-executed from cache. Oracle over the "
     "database: (1) for every job handed to the executor, the Argument rows of its call node carry "
-    "exactly the hashes of the values the task function received, positional ones by position and "
-    "defaulted parameters by keyword; (2) for every task-call node in the program, the task calls that "
+    "exactly the values the task function received (equal hash; when the hashes differ the recorded "
+    "value is read back and must be deeply, type-exactly equal: the pickle-based hash also depends on "
+    "object sharing inside a value), positional ones by position and defaulted parameters by keyword; (2) for every task-call node in the program, the task calls that "
     "are direct structural sources of its bindings (through operators, containers, getitem/getattr, "
     "let) — `must` — are among the upstream call nodes recorded for the corresponding argument, and "
     "every recorded upstream is an existing call node of this database (`may`). Non-trivial = an "
@@ -96,6 +97,24 @@ def vhash(v):
     from redun.value import get_type_registry
 
     return get_type_registry().get_hash(v)
+
+
+def same_value(backend, value_hash, received, stats) -> bool:
+    """The property speaks of equal VALUES. redun's pickle-based hash also depends on which equal
+    sub-objects are one object (pickle memoisation: Point(x=L, y=L) with one shared list L pickles
+    differently from the same value with two equal lists), and argument preprocessing may copy a
+    value between the two hashings. So a hash mismatch is only a violation if the recorded value,
+    read back, is not deeply (and type-exactly) equal to what the task received."""
+    from vf.lab.values import deep_typed_equal
+
+    try:
+        obj, ok_ = backend.get_value(value_hash)
+    except Exception:  # noqa: BLE001
+        return False
+    if ok_ and deep_typed_equal(obj, received):
+        stats["equal_but_other_sharing"] = stats.get("equal_but_other_sharing", 0) + 1
+        return True
+    return False
 
 
 def ahash(ast):
@@ -191,13 +210,13 @@ def audit(case, backend, runs) -> dict:
             if len(pos) != len(args):
                 raise Violation("argument-count", f"{sub.task_name}: {len(pos)} positional Argument rows for {len(args)} received values", case)
             for i, v in enumerate(args):
-                if pos[i].value_hash != vhash(v):
+                if pos[i].value_hash != vhash(v) and not same_value(backend, pos[i].value_hash, v, stats):
                     raise Violation("argument-value", f"{sub.task_name}: recorded argument {i} is not the value the task received ({v!r:.80})", case)
                 stats["args_checked"] += 1
             if set(kw) != set(kwargs):
                 raise Violation("argument-keywords", f"{sub.task_name}: recorded keyword arguments {sorted(kw)} != received {sorted(kwargs)}", case)
             for k_, v in kwargs.items():
-                if kw[k_].value_hash != vhash(v):
+                if kw[k_].value_hash != vhash(v) and not same_value(backend, kw[k_].value_hash, v, stats):
                     raise Violation("argument-value", f"{sub.task_name}: recorded argument {k_} is not the value the task received", case)
                 stats["args_checked"] += 1
             if sub.task_name == "vf.dnode":
